@@ -3,7 +3,7 @@
    [obs_equal] to the one serialized; the readers are shown to depend on nothing else
    (Proofs/TextFormatRoundTrip.v, Proofs/ArcProofs.v). *)
 From Coq Require Import List NArith ZArith Bool Lia ZifyBool ZifyNat ZifyN.
-From Mila Require Import Lib.Bytes Lib.Machine Model.BinArchive Model.BinStreams Proofs.AMapLemmas Proofs.BinAccess Proofs.BinAccess2.
+From Mila Require Import Lib.Bytes Lib.Machine Model.BinArchive Model.BinStreams Proofs.AMapLemmas Proofs.BinAccess Proofs.BinAccess2 Proofs.FindLabel.
 Import ListNotations.
 Local Open Scope N_scope.
 
@@ -11,11 +11,13 @@ Local Open Scope N_scope.
 Definition label_addrs (a : archive) (l : bytes) : list N :=
   map fst (filter (fun p : N * list bytes => existsb (bytes_eqb l) (snd p)) (a_labels a)).
 
+(* repaired code (fix 10408e9): the LOWEST of these addresses ([label_addrs] = Model.BinArchive.label_hits) *)
 Lemma find_label_address_addrs a l :
-  find_label_address a l = match label_addrs a l with x :: _ => Some x | [] => None end.
+  find_label_address a l = match label_addrs a l with x :: r => Some (min_of x r) | [] => None end.
+Proof. reflexivity. Qed.
+Lemma min_of_all_eq x y r : (forall z, In z (y :: r) -> z = x) -> min_of y r = x.
 Proof.
-  unfold find_label_address, label_addrs. induction (a_labels a) as [|p r IH]; cbn [find filter map]; [reflexivity|].
-  destruct (existsb (bytes_eqb l) (snd p)); cbn [map]; [reflexivity | exact IH].
+  intros H. destruct (min_of_in r y) as [E|Hin]; [rewrite E; apply H; left; reflexivity | apply H; right; exact Hin].
 Qed.
 
 Record obs_equal (a a' : archive) : Prop := {
@@ -23,13 +25,11 @@ Record obs_equal (a a' : archive) : Prop := {
   oe_string : forall x, read_string a' x = read_string a x;
   oe_pointer : forall x, read_pointer a' x = read_pointer a x;
   oe_labels : forall x, read_labels a' x = read_labels a x;
-  (* find_label_address agrees for every label that occurs on exactly one address *)
-  oe_find : forall l x, label_addrs a l = [x] -> find_label_address a' l = Some x }.
+  (* find_label_address (repaired code 10408e9: the lowest address carrying the label) agrees for EVERY label *)
+  oe_find : forall l, find_label_address a' l = find_label_address a l }.
 
 Lemma obs_equal_refl a : obs_equal a a.
-Proof.
-  constructor; try reflexivity. intros l x H. rewrite find_label_address_addrs, H. reflexivity.
-Qed.
+Proof. constructor; reflexivity. Qed.
 
 (* ---- everything a reader does with the raw bytes depends on a_data (and a_endian) only ---- *)
 Lemma size_congr a a' : a_data a' = a_data a -> size a' = size a.
@@ -88,5 +88,12 @@ Proof.
     assert (G : am_get x (a_labels a') = Some b) by (rewrite Hget; apply am_in_get; assumption).
     apply am_get_in in G. apply label_addrs_in. exists b. auto. }
   rewrite find_label_address_addrs. destruct (label_addrs a' l) as [|y r]; [destruct Hx|].
-  f_equal. apply Hall. left. reflexivity.
+  f_equal. apply min_of_all_eq. exact Hall.
 Qed.
+
+(* since the repair 10408e9 the lookup itself is a function of the label MAP: full agreement, duplicates included *)
+Lemma find_agree_all a a' :
+  NoDup (am_keys (a_labels a)) -> NoDup (am_keys (a_labels a')) ->
+  (forall x, am_get x (a_labels a') = am_get x (a_labels a)) ->
+  forall l, find_label_address a' l = find_label_address a l.
+Proof. intros N1 N2 G l. apply find_label_address_same_map; assumption. Qed.
